@@ -621,6 +621,7 @@ class Mineral:
         self.phase = phase
         self.fabric = fabric
         self.regime = regime
+        self.n_grains = len(self.fractions[0])
         self.orientations_init = self.orientations[0]
         self.fractions_init = self.fractions[0]
 
